@@ -167,6 +167,34 @@ let n_panics_agreed = ref 0
 let n_monitor_fails = ref 0
 let mon_nodes = ref 0
 
+(* listeners (C15): per node subscription map, and the calls made since the last CALLS op *)
+let lsubs : (int, lmap) Hashtbl.t = Hashtbl.create 8
+let lcalls : (int, string list) Hashtbl.t = Hashtbl.create 8
+let lmap_of (i : int) : lmap = match Hashtbl.find_opt lsubs i with Some m -> m | None -> []
+
+let dispatch_events (i : int) (evs : mevent list) : unit =
+  let m = lmap_of i in
+  if m <> [] then
+    List.iter
+      (fun ((member, k), v) ->
+        let calls = trigger_event m k v in
+        let strs =
+          List.map
+            (fun ((lid, k'), v') ->
+              Printf.sprintf "%s %s %s %s" (string_of_n lid) (hex_of_bytes k') (hex_of_bytes v') (token_of_id member))
+            calls
+        in
+        let old = match Hashtbl.find_opt lcalls i with Some l -> l | None -> [] in
+        Hashtbl.replace lcalls i (old @ strs))
+      evs
+
+let parse_addr_tok (t : string) : addr =
+  match String.split_on_char '.' t with
+  | [ v; ip; port ] ->
+      let ip = n_of_string ip and port = n_of_string port in
+      if v = "4" then V4 (ip, port) else V6 (ip, port)
+  | _ -> fail "bad addr %S" t
+
 let node_at (i : int) : node =
   match List.nth_opt !world.w_nodes i with Some n -> n | None -> fail "no node %d" i
 
@@ -176,6 +204,7 @@ let obs_after_step (i : int) (r : (world * obs) result) ~(with_reply : bool) : s
   | Err -> "MODEL-ERR illegal-order"
   | Ok (w, o) ->
       world := w;
+      dispatch_events i o.o_events;
       let nd = node_at i in
       let reply =
         if with_reply then
@@ -294,6 +323,56 @@ let exec (c : cursor) : outcome =
       | Ok x ->
           let m = Ack x in
           Obs (Printf.sprintf "%s bytes %s" (dump_message m) (string_of_n (serialized_len m))))
+  | "SUB" ->
+      let i = next_int c in
+      let lid = next_n c in
+      let p = next_hex c in
+      Hashtbl.replace lsubs i (subscribe (lmap_of i) p lid);
+      Obs "ok"
+  | "UNSUB" ->
+      let i = next_int c in
+      let lid = next_n c in
+      let p = next_hex c in
+      Hashtbl.replace lsubs i (unsubscribe (lmap_of i) p lid);
+      Obs "ok"
+  | "CALLS" ->
+      let i = next_int c in
+      let l = match Hashtbl.find_opt lcalls i with Some l -> l | None -> [] in
+      Hashtbl.replace lcalls i [];
+      let l = List.sort compare l in
+      Obs (String.concat " " (string_of_int (List.length l) :: l))
+  | "SELECT" ->
+      let addrs tag =
+        expect c tag;
+        let k = next_int c in
+        repeat k (fun () -> parse_addr_tok (next c))
+      in
+      let peers = addrs "P" in
+      let live = addrs "L" in
+      let dead = addrs "D" in
+      let seeds = addrs "S" in
+      let sample = addrs "SAMPLE" in
+      expect c "DRAWS";
+      let k = next_int c in
+      let draws = repeat k (fun () -> next_n c) in
+      let opt tag =
+        expect c tag;
+        let t = next c in
+        if t = "none" then None else Some (parse_addr_tok t)
+      in
+      let dp = opt "DEADPICK" in
+      let sp = opt "SEEDPICK" in
+      let o = { or_sample = sample; or_draws = draws; or_dead = dp; or_seed = sp } in
+      (* a pick the implementation did not make tells nothing about the generator: only picks
+         that were made are validated *)
+      let sel = select_nodes_for_gossip peers live dead seeds o in
+      let valid =
+        oracle_valid peers live
+          (if dp = None then [] else dead)
+          (if sp = None then [] else seeds) o in
+      Obs (Printf.sprintf "valid %d dead %d seed %d draws %d" (if valid then 1 else 0)
+             (if sel.sel_dead_decided then 1 else 0) (if sel.sel_seed_decided then 1 else 0)
+             (int_of_nat sel.sel_draws_used))
   | "DECODE" ->
       let b = next_hex c in
       let _ = parse_tail c in
@@ -336,6 +415,7 @@ let () =
          world := empty_world;
          skipping := false;
          no_events := false;
+         Hashtbl.reset lsubs; Hashtbl.reset lcalls;
          Monitor.reset_case ();
          mon_nodes := 0;
          incr n_cases
@@ -358,7 +438,7 @@ let () =
              | "JOIN" ->
                  (match parse_join mc with
                   | WJoin (cfg, _) ->
-                      Monitor.on_join !mon_nodes { Monitor.self = cfg.cf_id; has_cb = cfg.cf_has_cb; pred = cfg.cf_pred } impl;
+                      Monitor.on_join !mon_nodes { Monitor.self = cfg.cf_id; has_cb = cfg.cf_has_cb; pred = cfg.cf_pred; fdc = cfg.cf_fd } impl;
                       incr mon_nodes
                   | _ -> ())
              | "SET" | "SETTTL" | "DEL" | "DELTTL" -> Monitor.on_local (next_int mc) impl ~is_write:true
@@ -368,6 +448,7 @@ let () =
                  let m = parse_message mc in
                  Monitor.on_proc i m impl
              | "EVAL" -> Monitor.on_eval (next_int mc) impl
+             | "TICK" -> Monitor.on_tick impl
              | "SYN" -> Monitor.on_syn (next_int mc) impl
              | "CATCHUP" -> Monitor.on_catchup (next_int mc) impl
              | "DELTA" ->
